@@ -246,6 +246,9 @@ func (t *Transport) decodeFromWithCompression(rd io.Reader) (int, []byte, error)
 	if err := frd.Close(); err != nil {
 		return 0, nil, err
 	}
+	if err := drain(ird); err != nil {
+		return 0, nil, err
+	}
 	return ird.ReadBytes, m, nil
 }
 
@@ -266,7 +269,18 @@ func (t *Transport) decodeFromWithContextTakeover(rd io.Reader) (int, []byte, er
 	if err := frd.Close(); err != nil {
 		return 0, nil, err
 	}
+	if err := drain(ird); err != nil {
+		return 0, nil, err
+	}
 	return ird.ReadBytes, m, nil
+}
+
+// drain reads the message reader to its end. The DEFLATE stream ends before the WebSocket message does when the peer sent the
+// message in several frames (a message written through Conn.Writer ends with an empty final frame), and the coder / nhooyr
+// backends refuse to hand out the next message ("previous message not read to completion") until the end has been read.
+func drain(rd io.Reader) error {
+	_, err := io.Copy(io.Discard, rd)
+	return err
 }
 
 func (t *Transport) decode(rd io.Reader) (int, []byte, error) {
